@@ -388,7 +388,7 @@ PROPS["C05"] = {
 }
 
 PROPS["C11"] = {
-  "units": ["framing", "routerrecv", "routermap", "flags", "routerfrag", "routersend", "routerhold"],
+  "units": ["framing", "routerrecv", "routermap", "flags", "routerfrag", "routersend", "routerhold", "routerident"],
   "kani_quick": [], "kani_thorough": [],
   "claim": "Envelope handling only, proved for every message shape (any number of frames up to the container limit, empty frames anywhere): ROUTER's automatic delimiter is inserted right after the identity and removed from exactly that slot, "
            "DEALER's is prepended and stripped, the payload frames after it are unchanged frame for frame (decode after encode restores the payload); REP's extract_routing_prefix splits at the first empty frame, loses and reorders nothing, "
@@ -398,6 +398,8 @@ PROPS["C11"] = {
            "and the finalize signal is subscribed to before the last check for releasable data (no lost wake-up window). "
            "The two writers of the identity gate (unit routerhold, on the concrete map of per-pipe FIFOs, counter and finalized set): RouterSocket::hold_pending_batch parks the batch at the BACK of its own pipe's queue, leaves every other queue untouched, counts it exactly once and finalizes nothing; "
            "RouterSocket::finalize_pipe adds exactly that pipe to the finalized set (nothing is ever removed by it), touches no parked batch, and wakes the waiters only AFTER the pipe is in the set. "
+           "End of a handshake on ROUTER (unit routerident: RouterSocket::update_peer_identity, whole): when the pipe's endpoint is known the pipe's label becomes the announced identity if it is non-empty and that pipe's own placeholder otherwise, the routing map is told the same identity for the same pipe, no other label is touched; "
+           "the label is written BEFORE the pipe passes the identity gate, and the pipe is finalized exactly once on every path (and no other pipe is). "
            "RouterMap (identity <-> connection maps, unit routermap): after add_peer / update_peer_identity the identity routes to the connection that announced it (also when the identity was already in the map: take-over), "
            "the pipe is labelled with it, the pipe's previous label (placeholder) no longer routes, every other identity and pipe entry is untouched; detaching a pipe removes its label and its identity's route "
            "unless another pipe has taken that identity over, in which case the route of the live connection is kept. "
